@@ -4,6 +4,11 @@ FACTS = [("QuartzModel.Theorems.Facts", t) for t in [
     "Facts.missing_none", "Facts.limits_eq", "Facts.limitsAux_eq", "Facts.bounds_eq", "Facts.hashRange_eq",
     "Facts.dowShift_eq", "Facts.months_eq", "Facts.days_eq", "Facts.special_eq"]]
 
+# the hand-written cron model IS the code: definitions translated from internal/csm + quartz/csm.go on every run (harness/cmd/gotolean ->
+# Generated/Trans.lean) are proved equal to the model's functions for all inputs
+TRANS = [("QuartzModel.Theorems.MissingTrans", "Trans.missing_none")] + \
+        [("QuartzModel.Theorems.TransCsm", "TransCsm." + t) for t in ["trans_commonValid", "trans_commonNext", "trans_commonReset", "trans_commonFindForward", "trans_resultCodes"]]
+
 ODO = [("QuartzModel.Proofs.Odometer", t) for t in ["Odo.findForward_spec", "Odo.loop_fuel", "Odo.μ6_measure"]]
 
 # the dispatch step and the API calls are atomic with respect to each other because of the queue lock: its facts are obligations
@@ -106,13 +111,13 @@ THEOREMS = {
            [("QuartzModel.Theorems.C11Lin", "Queue." + t) for t in ["C11_queue_lock_facts", "C11_queue_array_confined", "pushOp_run", "qcallOp_run",
                                                                    "C11_linearizable", "qcall_inv", "C11_concurrent_inv"]] +
            [("QuartzModel.Concurrency.Lock", "Lock.linearizable")],
-    "C01": FACTS + ODO + [("QuartzModel.Theorems.C01", "Cron.C01_sound"), ("QuartzModel.Theorems.CronCode", "Cron.C01_sound_code"),
+    "C01": FACTS + TRANS + ODO + [("QuartzModel.Theorems.C01", "Cron.C01_sound"), ("QuartzModel.Theorems.CronCode", "Cron.C01_sound_code"),
                           ("QuartzModel.Proofs.CronAssembly", "Cron.allValid_iff_matches"), ("QuartzModel.Proofs.DaySpec", "Cron.dayValid_iff"),
                           ("QuartzModel.Proofs.CalendarLemmas", "Cal.Civil.ofSeconds_toSeconds"), ("QuartzModel.Proofs.CalendarLemmas", "Cal.Civil.toSeconds_lt_iff")],
-    "C02": FACTS + ODO + [("QuartzModel.Theorems.C02", "Cron." + t) for t in ["C02_minimal", "C02_expired_iff", "C02_chain"]] +
+    "C02": FACTS + TRANS + ODO + [("QuartzModel.Theorems.C02", "Cron." + t) for t in ["C02_minimal", "C02_expired_iff", "C02_chain"]] +
            [("QuartzModel.Theorems.CronCode", "Cron.C02_minimal_code"), ("QuartzModel.Theorems.CronCode", "Cron.C02_expired_iff_code"),
             ("QuartzModel.Proofs.CronAssembly", "Cron.csmNext_spec_some"), ("QuartzModel.Proofs.CronAssembly", "Cron.csmNext_spec_none")],
-    "C06": FACTS + ODO + [("QuartzModel.Theorems.C06", "Cron." + t) for t in ["C06_total", "nextFire_ne_outOfFuel", "C06_single_pass"]] +
+    "C06": FACTS + TRANS + ODO + [("QuartzModel.Theorems.C06", "Cron." + t) for t in ["C06_total", "nextFire_ne_outOfFuel", "C06_single_pass"]] +
            [("QuartzModel.Theorems.CronCode", "Cron.C06_total_code"), ("QuartzModel.Proofs.CronAssembly", "Cron.csmNext_ne_none")],
     "C07": FACTS + [("QuartzModel.Theorems.C07", "Cron." + t) for t in [
         "parse_wellFormed", "newTrigger_wellFormed", "parseField_inRange", "parseField_no_special", "parseDom_shape",
